@@ -78,8 +78,8 @@ func vpTarScenario(t *rapid.T, root string) ([]vpTarEntry, bool) {
 	L := pick("L", "t", "a/t", "d")
 	S := pick("S", "s", "e", "b")
 	dir := pick("inner", "a", "c", "sub")
-	leaf := pick("leaf", "evil.txt", "sibling.txt", "outside/canary1", "outside/new", "x")
-	up := pick("up", "/..", "/../..", "/../outside", "/.")
+	leaf := pick("leaf", "evil.txt", "sibling.txt", "outside/canary1", "outside/new", "x", "g/h")
+	up := pick("up", "/..", "/../..", "/../outside", "/.", "/../dest2", "/../dest2/.")
 	steps := []vpTarEntry{
 		{typ: tar.TypeDir, name: dir, mode: 0755},
 		{typ: tar.TypeSymlink, name: L, link: pick("first", dir, ".", "./"+dir), mode: 0777},
@@ -183,7 +183,7 @@ func vpTarGen(t *rapid.T, root string) ([]vpTarEntry, bool) {
 					via := links[rapid.IntRange(0, len(links)-1).Draw(t, "tvia")]
 					// the target is relative to the link's own directory: use the link's base name
 					// when both live in the same directory, else climb from the new entry
-					e.link = filepath.Base(via) + rapid.SampledFrom([]string{"/..", "/../..", "/../outside", "/a", "/.", "/../sibling.txt"}).Draw(t, "tsuffix")
+					e.link = filepath.Base(via) + rapid.SampledFrom([]string{"/..", "/../..", "/../outside", "/a", "/.", "/../sibling.txt", "/../dest2", "/../destination-old"}).Draw(t, "tsuffix")
 				}
 			}
 			// sometimes re-point an existing link (same name, new target) after it was used
@@ -310,7 +310,11 @@ func vpC27World() (root, dest string) {
 	os.WriteFile(filepath.Join(root, "outside", "canary1"), []byte("canary-one"), 0644)
 	os.WriteFile(filepath.Join(root, "outside", "sub", "canary2"), []byte("canary-two"), 0600)
 	os.WriteFile(filepath.Join(root, "sibling.txt"), []byte("sibling"), 0644)
+	// siblings whose names begin with the destination's name (a prefix test without the
+	// separator takes them for the destination)
 	os.MkdirAll(filepath.Join(root, "dest2"), 0755)
+	os.MkdirAll(filepath.Join(root, "destination-old"), 0755)
+	os.WriteFile(filepath.Join(root, "dest2", "keep.txt"), []byte("sibling-keep"), 0644)
 	return root, filepath.Join(root, "dest")
 }
 
